@@ -269,6 +269,8 @@ func (sr *srcRenderer) simple(s any) string {
 		return fmt.Sprintf("rt.YF(yield, rt.Pull(func(yield func(int) bool) {\n\tr.E(%d, a, b)\n\trt.Y(yield, a)\n\ta++\n\trt.Y(yield, a)\n}))", num(m["id"]))
 	case "pullit":
 		return fmt.Sprintf("if it.MoveNext() {\n\tr.E(%d, it.Current(), 0)\n} else {\n\tr.E(%d, -1, 0)\n}", num(m["id"]), num(m["id"]))
+	case "mk2":
+		return "it2 = D2(r, 7, b)"
 	case "yfromit":
 		if sr.md == coMode {
 			return sr.api + "YieldFrom(it)"
@@ -324,7 +326,7 @@ func (sr *srcRenderer) stmt(s any, ind string) string {
 		return ind + sr.simple(s) + "\n" + ind + "_ = " + n + "\n"
 	case "def2":
 		return ind + sr.simple(s) + "\n" + ind + "_, _ = a, b\n"
-	case "eff", "inc", "callf", "passign", "panic", "yield", "yfrom", "setcv", "sets", "setp", "incq", "effkv", "effkk", "effw", "mut", "effx", "pullit", "yfromit", "iife", "nestgen":
+	case "eff", "inc", "callf", "passign", "panic", "yield", "yfrom", "setcv", "sets", "setp", "incq", "effkv", "effkk", "effw", "mut", "effx", "pullit", "yfromit", "mk2", "iife", "nestgen":
 		return indent(sr.simple(s), ind)
 	case "range":
 		return sr.rangeStmt(m, ind)
@@ -729,8 +731,11 @@ func (sr *srcRenderer) genFunc(name string, prog []any, trailing string) string 
 		prolog += rangeProlog
 	}
 	prolog += optProlog(prog, name)
-	if usesKind(prog, "pullit") || usesKind(prog, "yfromit") || iterRange {
+	if usesKind(prog, "pullit") || usesKind(prog, "yfromit") || usesKind(prog, "mk2") || iterRange {
 		prolog += "\tit := D2(r, 3, b)\n\t_ = it\n"
+		if usesKind(prog, "mk2") {
+			prolog += "\tit2 := it\n\t_ = it2\n"
+		}
 	}
 	tailDecl := sr.pkgVarsOf(prog, name)
 	uk := unsupKind(prog)
